@@ -152,6 +152,7 @@ func (req *Request) Options() *config.RequestOptions {
 //
 // It is safe re-using p after the function returns.
 func (req *Request) AppendBody(p []byte) {
+	req.bodyStreamErr = nil
 	req.RemoveMultipartFormFiles()
 	req.CloseBodyStream()     //nolint:errcheck
 	req.BodyBuffer().Write(p) //nolint:errcheck
@@ -286,6 +287,7 @@ func (req *Request) MultipartForm() (*multipart.Form, error) {
 
 // AppendBodyString appends s to request body.
 func (req *Request) AppendBodyString(s string) {
+	req.bodyStreamErr = nil
 	req.RemoveMultipartFormFiles()
 	req.CloseBodyStream()           //nolint:errcheck
 	req.BodyBuffer().WriteString(s) //nolint:errcheck
@@ -358,6 +360,7 @@ func (req *Request) SwapBody(body []byte) []byte {
 	}
 
 	req.bodyRaw = nil
+	req.bodyStreamErr = nil
 
 	oldBody := bb.B
 	bb.B = body
@@ -446,6 +449,7 @@ func (req *Request) MultipartFormBoundary() string {
 //
 // It is safe re-using body argument after the function returns.
 func (req *Request) SetBody(body []byte) {
+	req.bodyStreamErr = nil
 	req.RemoveMultipartFormFiles()
 	req.CloseBodyStream() //nolint:errcheck
 	req.BodyBuffer().Set(body)
@@ -453,6 +457,7 @@ func (req *Request) SetBody(body []byte) {
 
 // SetBodyString sets request body.
 func (req *Request) SetBodyString(body string) {
+	req.bodyStreamErr = nil
 	req.RemoveMultipartFormFiles()
 	req.CloseBodyStream() //nolint:errcheck
 	req.BodyBuffer().SetString(body)
